@@ -741,6 +741,8 @@ func runC14(c *Ctx) {
 		results[i] = c14RunCell(c.Seed, cells[i])
 	})
 	defer func() { <-satDone }()
+	c14Churn(c)
+	c14Fallback(c)
 	type cand struct {
 		res *c14Result
 		f   c14Finding
